@@ -219,6 +219,8 @@ def check_structure(case):
         g2 = GroupScores(pos, neg, pos_groups=pg, neg_groups=ng, score_class=d["sc"], equal_class=d["ec"])
         check_object(g2, d, thr, "second object over the same caller arrays")
         require(triples(g1) == triples(g2), "grp:triples", "first and second object over the same arrays differ")
+        require(bool(g1 == g2) and bool(g1.swap().swap() == g1), "grp:equality",
+                "two objects over the same arrays (or an object and its double swap) compare unequal")
     sw = g.swap()
     d_sw = dict(d, sc="neg" if d["sc"] == "pos" else "pos", ec="neg" if d["ec"] == "pos" else "pos")
     check_object(sw, d_sw, thr, f"swap() of via={case['via']}", swapped=True)
